@@ -1,8 +1,8 @@
 SPECIFICATION Spec
 CONSTANTS
   StepRecovery = TRUE
-  FixAfterRemove = FALSE
-  RCrashes = 1
+  FixAfterRemove = TRUE
+  RCrashes = 2
   Order <- Two
   MarkersFirst = TRUE
 INVARIANTS CountInBounds ClosedClean RecoveredClean
